@@ -28,7 +28,8 @@ def jobs(tier, seed):
     n = 24 if tier == "quick" else 160
     js = [{"sub": "cyclic", "chunk": i, "of": n} for i in range(n)]
     if tier != "quick":
-        js += [{"sub": "graph5", "chunk": i, "of": 64} for i in range(64)]
+        js += [{"sub": "graph5", "chunk": i, "of": 64, "n": 5} for i in range(64)]
+    js += [{"sub": "graph4", "chunk": i, "of": 8, "n": 4} for i in range(8)]
     for hs in (1, 2 + seed % 1000):
         js += [{"sub": "cyclic", "chunk": i, "of": n, "hashseed": hs, "primary": False} for i in range(0, n, 6)]
     return js
@@ -138,19 +139,19 @@ def graph_desc(n, edges, order):
 def run_graph5(job, acc):
     """All loop-free digraphs on 5 nodes that contain a cycle (the feedback heuristic depends on the graph
     shape and the node insertion order only), in two insertion orders; thorough: all edge counts."""
-    cap = 9 if job["tier"] == "quick" else 20
-    for _idx, edges in space.chunk(space.digraphs(5), job["chunk"], job["of"]):
-        if len(edges) > cap or len(edges) < 2:
+    N = job.get("n", 5)
+    for _idx, edges in space.chunk(space.digraphs(N), job["chunk"], job["of"]):
+        if len(edges) < 2:
             continue
-        succ = {i: set() for i in range(5)}
+        succ = {i: set() for i in range(N)}
         for u, v in edges:
             succ[u].add(v)
         if not refgraph.is_cyclic(succ):
             continue
-        for order in (list(range(5)), list(range(4, -1, -1))):
-            desc = graph_desc(5, edges, order)
+        for order in (list(range(N)), list(range(N - 1, -1, -1))):
+            desc = graph_desc(N, edges, order)
             acc.states += 1
-            if check(acc, desc, values=job["tier"] != "quick"):
+            if check(acc, desc, values=True):
                 acc.nontrivial += 1
         if acc.out_of_time():
             break
@@ -160,7 +161,7 @@ def run_graph5(job, acc):
 def run(job):
     common.setup_paths()
     acc = Acc(job)
-    if job["sub"] == "graph5":
+    if job["sub"] in ("graph5", "graph4"):
         run_graph5(job, acc)
         return acc.result()
     for _idx, (I, gates) in space.chunk(corpus(job["tier"]), job["chunk"], job["of"]):
@@ -174,8 +175,8 @@ def run(job):
             continue
         gate_idx = list(range(I, I + G))
         outsets = [[g] for g in gate_idx] + [list(p) for p in itertools.combinations(gate_idx, 2)]
-        if I and job["tier"] != "quick":
-            outsets.append([0, gate_idx[-1]])
+        if I:
+            outsets.append([0, gate_idx[-1]])   # an output that is also a primary input
         for outs in outsets:
             desc = space.to_desc(I, gates, outputs=outs)
             acc.states += 1
